@@ -236,7 +236,28 @@ func asciiViolation(code string, family string) int {
 	return asciiOnly(code)
 }
 
+// literals are printed by code that does not depend on the output format: in the thorough tier they run under
+// charset x minify-whitespace x line-limit with the format rotating (8 configurations), not the whole grid
+func literalConfigs(r *core.Run, cfgs []config) []config {
+	if !r.Thorough() || len(cfgs) <= 8 {
+		return cfgs
+	}
+	var out []config
+	formats := []string{"preserve", "esm", "iife", "cjs"}
+	i := 0
+	for _, cs := range []string{"ascii", "utf8"} {
+		for _, mw := range []bool{false, true} {
+			for _, ll := range []int{0, 20} {
+				out = append(out, config{Charset: cs, MinifyWS: mw, LineLimit: ll, Format: formats[i%4], Platform: "browser"})
+				i++
+			}
+		}
+	}
+	return out
+}
+
 func runLiterals(r *core.Run, cases []litCase, cfgs []config) {
+	cfgs = literalConfigs(r, cfgs)
 	r.Logf("TLC exported %d literal cases", len(cases))
 	if len(cases) == 0 {
 		return
